@@ -177,7 +177,8 @@ func (lb *ListenerBuilder) buildEastWestTLSPassthroughListeners() []*listener.Li
 		l.TrafficDirection = core.TrafficDirection_INBOUND
 		listeners = append(listeners, l)
 	}
-	return listeners
+	// mutableopts is a map: keep the order of the listeners stable.
+	return slices.SortBy(listeners, func(l *listener.Listener) string { return l.Name })
 }
 
 func (lb *ListenerBuilder) buildWaypointInbound() []*listener.Listener {
